@@ -420,3 +420,242 @@ Qed.
 Lemma sort_by_map {A B} (h : A -> B) (key : B -> Z) l :
   sort_by key (map h l) = map h (sort_by (fun a => key (h a)) l).
 Proof. induction l as [|x t IH]; [reflexivity|]. cbn [map sort_by]. now rewrite IH, insert_by_map. Qed.
+
+(* ============================================================================================== *)
+(* 4. everything after the colouring                                                               *)
+(* ============================================================================================== *)
+Definition apos_eq (l l' : list (N * Q)) : Prop := Forall2 (fun x y => fst x = fst y /\ snd x == snd y) l l'.
+
+Definition res_eq (r r' : result (option (list Q * list (N * Q)))) : Prop :=
+  match r, r' with
+  | Ok (Some y), Ok (Some y') => fst y = fst y' /\ apos_eq (snd y) (snd y')
+  | Ok None, Ok None => True
+  | Err e, Err e' => e = e'
+  | _, _ => False
+  end.
+
+Lemma apos_eq_refl l : apos_eq l l.
+Proof. induction l; constructor; [split; reflexivity|assumption]. Qed.
+
+Lemma apos_eq_app l1 l1' l2 l2' : apos_eq l1 l1' -> apos_eq l2 l2' -> apos_eq (l1 ++ l2) (l1' ++ l2').
+Proof. apply Forall2_app. Qed.
+
+Lemma max_abs_diff_nonneg l : 0 <= max_abs_diff l.
+Proof.
+  unfold max_abs_diff. destruct (ordered_pairs l) as [|uv t]; [cbn; lra|]. cbn [map].
+  pose proof (proj2 (qmaxl_spec (Qabs (fst uv - snd uv)) (map (fun xy => Qabs (fst xy - snd xy)) t)) _ (or_introl eq_refl)).
+  pose proof (Qabs_nonneg (fst uv - snd uv)). lra.
+Qed.
+
+Lemma max_abs_diff_le l l' : (forall x, In x l -> In x l') -> max_abs_diff l <= max_abs_diff l'.
+Proof.
+  intros Hsub. unfold max_abs_diff at 1. destruct (ordered_pairs l) as [|uv t] eqn:Ep; [cbn; apply max_abs_diff_nonneg|].
+  cbn [map]. destruct (proj1 (qmaxl_spec (Qabs (fst uv - snd uv)) (map (fun xy => Qabs (fst xy - snd xy)) t))) as [E|Hin].
+  - rewrite <- E. destruct uv as [u v]. cbn [fst snd].
+    destruct (ordered_pairs_In l u v) as (Hu & Hv); [rewrite Ep; now left|]. apply max_abs_diff_bound; now apply Hsub.
+  - apply in_map_iff in Hin. destruct Hin as ([u v] & E & Huv). rewrite <- E. cbn [fst snd].
+    destruct (ordered_pairs_In l u v) as (Hu & Hv); [rewrite Ep; now right|]. apply max_abs_diff_bound; now apply Hsub.
+Qed.
+
+Lemma max_abs_diff_perm l l' : Permutation l l' -> max_abs_diff l == max_abs_diff l'.
+Proof.
+  intros HP. apply Qle_antisym; apply max_abs_diff_le; intros x Hx; eapply Permutation_in; try eassumption.
+  now apply Permutation_sym.
+Qed.
+
+Lemma place_groups_Qeq alt xl xr d d' m f : d == d' -> forall g i,
+  apos_eq (place_groups alt xl xr d m i f g) (place_groups alt xl xr d' m i f g).
+Proof.
+  intros E. induction f as [|fi f' IH]; intros g i; [constructor|]. cbn [place_groups]. apply apos_eq_app.
+  - induction fi as [|c t IHt]; [constructor|]. cbn [map]. constructor; [|assumption]. cbn [fst snd]. split; [reflexivity|].
+    destruct i; [reflexivity|]. destruct (Qltb (alt c) xl); now rewrite E.
+  - destruct g as [|gi g'].
+    + apply IH.
+    + apply apos_eq_app; [|apply IH]. generalize (combine (seq 0 (length gi)) gi). intros l.
+      induction l as [|lc t IHt]; [constructor|]. cbn [map]. constructor; [|assumption]. cbn [fst snd].
+      split; [reflexivity|]. now rewrite E.
+Qed.
+
+Lemma gen_runs_ext (f h : N -> bool) l : (forall c, f c = h c) -> gen_runs f l = gen_runs h l.
+Proof.
+  intros E. induction l as [|c t IH]; [reflexivity|]. cbn [gen_runs]. rewrite IH, (E c). reflexivity.
+Qed.
+
+Lemma insert_by_ext_in {A} (k k' : A -> Z) x l : k x = k' x -> (forall y, In y l -> k y = k' y) ->
+  insert_by k x l = insert_by k' x l.
+Proof.
+  intros Ex H. induction l as [|y t IH]; [reflexivity|]. cbn [insert_by]. rewrite Ex, (H y (or_introl eq_refl)).
+  destruct (k' x <=? k' y)%Z; [reflexivity|]. f_equal. apply IH. intros z Hz. apply H. now right.
+Qed.
+
+Lemma sort_by_ext_in {A} (k k' : A -> Z) l : (forall y, In y l -> k y = k' y) -> sort_by k l = sort_by k' l.
+Proof.
+  induction l as [|x t IH]; intros H; [reflexivity|]. cbn [sort_by]. rewrite IH by (intros y Hy; apply H; now right).
+  apply insert_by_ext_in; [apply H; now left|]. intros y Hy. apply H. right.
+  eapply Permutation_in; [apply Permutation_sym, sort_by_perm|exact Hy].
+Qed.
+
+Lemma left_of_ext v1 vn (g g' : gamma) a b : g a = g' a -> g b = g' b -> left_of v1 vn g a b = left_of v1 vn g' a b.
+Proof. intros Ea Eb. unfold left_of. now rewrite Ea, Eb. Qed.
+
+Lemma memb_perm c l l' : Permutation l l' -> memb c l = memb c l'.
+Proof.
+  intros HP. destruct (memb c l) eqn:E, (memb c l') eqn:E'; try reflexivity.
+  - apply memb_In in E. apply (Permutation_in _ HP), memb_In in E. congruence.
+  - apply memb_In in E'. apply (Permutation_in _ (Permutation_sym HP)), memb_In in E'. congruence.
+Qed.
+
+(* the part of the mirror after the colouring loop *)
+Definition post (lp : list (list N) -> list N -> option (list Q * list (N * Q)))
+                (alts : list N) (orders : list (list N)) (v1 vn : list N) (g : gamma)
+  : result (option (list Q * list (N * Q))) :=
+  let m := length alts in
+  let plus := filter (fun c => negb (is_grey (g c))) alts in
+  let counted := map (fun c => (c, axis_count v1 vn g plus c)) plus in
+  let axis := map fst (sort_by (fun cv => (- Z.of_nat (snd cv))%Z) counted) in
+  let prefs := map (filter (fun c => memb c plus)) orders in
+  match lp prefs axis with
+  | None => Ok None
+  | Some (voters, alternatives) =>
+      let alt := fun c => match apos_lookup alternatives c with Some q => q | None => 0 end in
+      let runs := gen_runs (fun c => memb c plus) v1 in
+      let f := f_groups runs in
+      let gg := g_groups runs in
+      let tmp1 := voters ++ map alt (hd [] f) in
+      let xl := match tmp1 with [] => 0 | x :: t => qminl x t end in
+      let xr := match tmp1 with [] => 0 | x :: t => qmaxl x t end in
+      let delta := max_abs_diff (voters ++ map alt plus) in
+      Ok (Some (voters, place_groups alt xl xr delta m 0 f gg))
+  end.
+
+Lemma axis_is_sort v1 vn g plus :
+  map fst (sort_by (fun cv : N * nat => (- Z.of_nat (snd cv))%Z) (map (fun c => (c, axis_count v1 vn g plus c)) plus))
+  = sort_by (fun c => (- Z.of_nat (axis_count v1 vn g plus c))%Z) plus.
+Proof.
+  rewrite (sort_by_map (fun c => (c, axis_count v1 vn g plus c)) (fun cv : N * nat => (- Z.of_nat (snd cv))%Z)).
+  rewrite map_map. cbn [fst snd]. apply map_id.
+Qed.
+
+Lemma post_perm lp alts alts' orders v1 vn (g g' : gamma) :
+  NoDup alts -> Permutation alts alts' -> Permutation alts v1 -> Permutation alts vn -> (forall c, g c = g' c) ->
+  res_eq (post lp alts orders v1 vn g) (post lp alts' orders v1 vn g').
+Proof.
+  intros Hnd HP H1 Hn Hg. unfold post.
+  set (plus := filter (fun c => negb (is_grey (g c))) alts).
+  set (plus' := filter (fun c => negb (is_grey (g' c))) alts').
+  assert (Hpp : Permutation plus plus').
+  { unfold plus, plus'. rewrite (filter_ext _ (fun c => negb (is_grey (g' c)))) by (intros c; now rewrite Hg).
+    now apply Permutation_filter. }
+  assert (Hndp : NoDup plus) by (apply NoDup_filter; assumption).
+  assert (Hndp' : NoDup plus') by (eapply Permutation_NoDup; eassumption).
+  assert (Hmem : forall c, In c plus -> member v1 vn g c).
+  { intros c Hc. apply filter_In in Hc. destruct Hc as (Hc & Hgc). repeat split.
+    - intros E. rewrite E in Hgc. discriminate.
+    - eapply Permutation_in; eassumption.
+    - eapply Permutation_in; eassumption. }
+  assert (Hanti : forall a b, In a plus -> In b plus -> a <> b -> left_of v1 vn g a b = negb (left_of v1 vn g b a)).
+  { intros a b Ha Hb. apply left_of_antisym; auto. }
+  (* the two count functions agree on the coloured alternatives *)
+  assert (Hcnt : forall c, In c plus -> axis_count v1 vn g' plus' c = axis_count v1 vn g plus c).
+  { intros c Hc. rewrite (axis_count_closed v1 vn g plus c Hndp Hanti).
+    rewrite (axis_count_closed v1 vn g' plus' c Hndp').
+    - rewrite <- (memb_perm c plus plus' Hpp). rewrite (proj2 (memb_In c plus) Hc).
+      rewrite <- (cnt_perm v1 vn g' plus plus' c Hpp). unfold cnt. f_equal. apply filter_ext. intros b.
+      now rewrite (left_of_ext v1 vn g g' c b (Hg c) (Hg b)).
+    - intros a b Ha Hb Hne. rewrite <- (left_of_ext v1 vn g g' a b (Hg a) (Hg b)), <- (left_of_ext v1 vn g g' b a (Hg b) (Hg a)).
+      apply Hanti; auto; eapply Permutation_in; try eassumption; now apply Permutation_sym. }
+  (* the axis *)
+  rewrite !axis_is_sort. fold plus plus'.
+  set (kc := fun c => (- Z.of_nat (axis_count v1 vn g plus c))%Z).
+  assert (Eaxis : sort_by (fun c => (- Z.of_nat (axis_count v1 vn g' plus' c))%Z) plus' = sort_by kc plus).
+  { rewrite (sort_by_ext_in _ kc plus').
+    - symmetry. apply (sorted_perm_unique kc).
+      + eapply Permutation_NoDup; [apply sort_by_perm|exact Hndp].
+      + eapply Permutation_trans; [apply Permutation_sym, sort_by_perm|].
+        eapply Permutation_trans; [exact Hpp|apply sort_by_perm].
+      + intros a b Ha Hb E. apply (Permutation_in _ (Permutation_sym (sort_by_perm kc plus))) in Ha, Hb.
+        destruct (N.eq_dec a b) as [|Hne]; [assumption|]. exfalso. unfold kc in E.
+        rewrite !(axis_count_closed v1 vn g plus _ Hndp Hanti), (proj2 (memb_In a plus) Ha), (proj2 (memb_In b plus) Hb) in E.
+        destruct (left_of v1 vn g a b) eqn:Eab.
+        * pose proof (cnt_strict v1 vn g plus a b Hndp Hmem Ha Hb Hne Eab). lia.
+        * rewrite (Hanti a b Ha Hb Hne) in Eab. apply negb_false_iff in Eab.
+          pose proof (cnt_strict v1 vn g plus b a Hndp Hmem Hb Ha (not_eq_sym Hne) Eab). lia.
+      + apply sort_by_sorted.
+      + apply sort_by_sorted.
+    - intros c Hc. unfold kc. f_equal. f_equal. apply Hcnt. eapply Permutation_in; [apply Permutation_sym; exact Hpp|exact Hc]. }
+  rewrite Eaxis.
+  assert (Eprefs : map (filter (fun c => memb c plus')) orders = map (filter (fun c => memb c plus)) orders).
+  { apply map_ext. intros r. apply filter_ext. intros c. symmetry. now apply memb_perm. }
+  rewrite Eprefs.
+  destruct (lp (map (filter (fun c => memb c plus)) orders) (sort_by kc plus)) as [[voters alternatives]|]; [|exact I].
+  cbn [res_eq fst snd]. split; [reflexivity|].
+  rewrite (gen_runs_ext (fun c => memb c plus') (fun c => memb c plus)) by (intros c; symmetry; now apply memb_perm).
+  rewrite <- (Permutation_length HP).
+  apply place_groups_Qeq. apply max_abs_diff_perm. apply Permutation_app_head. apply Permutation_map. exact Hpp.
+Qed.
+
+(* ============================================================================================== *)
+(* 5. the mirror does not depend on the order in which the sets of alternatives are iterated        *)
+(* ============================================================================================== *)
+Lemma eucl_algo_post lp alts orders :
+  eucl_algo lp alts orders =
+  match sc_algo alts orders with
+  | Err e => Err e
+  | Ok None => Ok None
+  | Ok (Some sc_order) =>
+      match sc_order with
+      | [] => Err OtherErr
+      | v1 :: _ =>
+          let vn := last sc_order v1 in
+          match v1, vn with
+          | c_minus :: _, c_plus :: _ =>
+              if (length orders =? 1)%nat then
+                Ok (Some ([0], map (fun rc => (snd rc, qnat (S (fst rc)))) (combine (seq 0 (length v1)) v1)))
+              else
+                match colour_loop v1 vn alts (gamma0 v1 vn c_minus c_plus) with
+                | None => Ok None
+                | Some g => post lp alts orders v1 vn g
+                end
+          | _, _ => Err OtherErr
+          end
+      end
+  end.
+Proof. reflexivity. Qed.
+
+Lemma sc_algo_length alts alts' orders : length alts = length alts' -> sc_algo alts orders = sc_algo alts' orders.
+Proof. intros E. unfold sc_algo. now rewrite E. Qed.
+
+Lemma res_eq_refl r : res_eq r r.
+Proof. destruct r as [[y|]|e]; cbn; auto. split; [reflexivity|apply apos_eq_refl]. Qed.
+
+(* Python iterates C_set / C_set_plus in an order fixed by the hash table; whatever that order is, the mirror gives
+   the same verdict, the same voter positions and (up to == on Q) the same positions of the alternatives *)
+Theorem eucl_algo_order_independent lp alts alts' orders : wf_profile alts orders -> Permutation alts alts' ->
+  res_eq (eucl_algo lp alts orders) (eucl_algo lp alts' orders).
+Proof.
+  intros Hwf HP. pose proof Hwf as (Hnd & Hndo & Hrk). rewrite !eucl_algo_post.
+  rewrite <- (sc_algo_length alts alts' orders (Permutation_length HP)).
+  destruct (sc_algo alts orders) as [[sc_order|]|e] eqn:Esc; [|exact I|reflexivity].
+  pose proof (sc_algo_sound alts orders sc_order Hwf Esc) as Hw.
+  apply (sc_witness_check_perm alts orders sc_order Hndo) in Hw. destruct Hw as (Hperm & _).
+  destruct sc_order as [|v1 seqt]; [reflexivity|]. cbv zeta.
+  assert (Hin : forall r, In r (v1 :: seqt) -> Permutation alts r).
+  { intros r Hr. rewrite Forall_forall in Hrk. apply Hrk. eapply Permutation_in; [apply Permutation_sym; exact Hperm|exact Hr]. }
+  pose proof (Hin v1 (or_introl eq_refl)) as P1. pose proof (Hin _ (last_In v1 seqt v1)) as Pn.
+  destruct v1 as [|c_minus v1t] eqn:Ev1; [reflexivity|]. rewrite <- Ev1 in *.
+  destruct (last (v1 :: seqt) v1) as [|c_plus vnt] eqn:Evn; [reflexivity|]. rewrite <- Evn in *.
+  destruct (length orders =? 1)%nat; [apply res_eq_refl|].
+  pose proof (colour_loop_perm v1 (last (v1 :: seqt) v1) alts alts' (gamma0 v1 (last (v1 :: seqt) v1) c_minus c_plus)
+                (gamma0_range _ _ _ _) HP) as Hc.
+  destruct (colour_loop v1 (last (v1 :: seqt) v1) alts _) as [g|],
+           (colour_loop v1 (last (v1 :: seqt) v1) alts' _) as [g'|]; try contradiction; [|exact I].
+  now apply post_perm.
+Qed.
+
+(* in particular the verdict *)
+Corollary eucl_algo_verdict_order_independent lp alts alts' orders : wf_profile alts orders -> Permutation alts alts' ->
+  eucl_algo_verdict lp alts' orders = eucl_algo_verdict lp alts orders.
+Proof.
+  intros Hwf HP. pose proof (eucl_algo_order_independent lp alts alts' orders Hwf HP) as H. unfold eucl_algo_verdict.
+  destruct (eucl_algo lp alts orders) as [[y|]|e], (eucl_algo lp alts' orders) as [[y'|]|e']; cbn in H; try contradiction; reflexivity.
+Qed.
